@@ -45,3 +45,22 @@ def split(data: Buffer, step: int) -> Iterator[Buffer]: ...
 
 def split(data: str | Buffer, step: int) -> Iterator[str | Buffer]:
     return (data[i : i + step] for i in range(0, len(data), step))
+
+
+def first_of_each_key(members: list[str]) -> list[str]:
+    """Keep the first of the JSON members ('"key": value' strings) which share a key.
+
+    A peer may repeat a TLV the attribute only expects once; joining the renderings of both
+    gave an object with the same key twice, which JSON readers resolve each in their own way.
+    The first occurrence is the one the RFCs tell a receiver to use.
+    """
+    seen: set[str] = set()
+    kept: list[str] = []
+    for member in members:
+        key = member.split('"', 2)[1] if member.count('"') >= 2 else member
+        if key in seen:
+            continue
+        seen.add(key)
+        kept.append(member)
+    return kept
+
